@@ -5,19 +5,15 @@ import (
 	"fmt"
 
 	"github.com/yuin/goldmark"
-	"github.com/yuin/goldmark/parser"
+	"github.com/yuin/goldmark/extension"
 )
 
 func main() {
-	a := goldmark.New()
-	var b bytes.Buffer
-	a.Convert([]byte("# Title\n"), &b)
-	fmt.Printf("%q\n", b.String())
-	x := goldmark.New(goldmark.WithParserOptions(parser.WithAutoHeadingID()))
-	b.Reset()
-	x.Convert([]byte("# Title\n"), &b)
-	fmt.Printf("%q\n", b.String())
-	b.Reset()
-	goldmark.New().Convert([]byte("# Title\n"), &b)
-	fmt.Printf("%q\n", b.String())
+	for _, src := range []string{"漢字 \n漢字", "漢字\n漢字", "a \nb", "漢字 \n*漢字*", "漢 字 \n漢字"} {
+		for _, ex := range [][]goldmark.Extender{{extension.CJK}, {extension.CJK, extension.Linkify}, {extension.Linkify, extension.CJK}} {
+			var b bytes.Buffer
+			goldmark.New(goldmark.WithExtensions(ex...)).Convert([]byte(src), &b)
+			fmt.Printf("%q %d -> %q\n", src, len(ex), b.String())
+		}
+	}
 }
